@@ -1,13 +1,13 @@
 //! A flag that can be raised to wake a task.
 //!
-//! Copied wholesale from <https://docs.rs/futures/latest/futures/task/struct.AtomicWaker.html>
-//! unfortunately not aware of crated version!
+//! Based on <https://docs.rs/futures/latest/futures/task/struct.AtomicWaker.html>, with one
+//! waker slot per clone of the flag so that several tasks can wait on the same flag.
 
 use std::{
 	pin::Pin,
 	sync::{
 		atomic::{AtomicBool, Ordering::Relaxed},
-		Arc,
+		Arc, Mutex, Weak,
 	},
 };
 
@@ -18,12 +18,26 @@ use futures::{
 
 #[derive(Debug)]
 struct Inner {
-	waker: AtomicWaker,
+	/// One waker slot per polled clone of the flag, so that any number of tasks can wait on it.
+	waiters: Mutex<Vec<Weak<AtomicWaker>>>,
 	set: AtomicBool,
 }
 
-#[derive(Clone, Debug)]
-pub struct Flag(Arc<Inner>);
+#[derive(Debug)]
+pub struct Flag {
+	inner: Arc<Inner>,
+	/// This clone's own waker slot, registered with the shared state on first poll.
+	waker: Option<Arc<AtomicWaker>>,
+}
+
+impl Clone for Flag {
+	fn clone(&self) -> Self {
+		Self {
+			inner: self.inner.clone(),
+			waker: None,
+		}
+	}
+}
 
 impl Default for Flag {
 	fn default() -> Self {
@@ -33,19 +47,27 @@ impl Default for Flag {
 
 impl Flag {
 	pub fn new(value: bool) -> Self {
-		Self(Arc::new(Inner {
-			waker: AtomicWaker::new(),
-			set: AtomicBool::new(value),
-		}))
+		Self {
+			inner: Arc::new(Inner {
+				waiters: Mutex::new(Vec::new()),
+				set: AtomicBool::new(value),
+			}),
+			waker: None,
+		}
 	}
 
 	pub fn raised(&self) -> bool {
-		self.0.set.load(Relaxed)
+		self.inner.set.load(Relaxed)
 	}
 
 	pub fn raise(&self) {
-		self.0.set.store(true, Relaxed);
-		self.0.waker.wake();
+		self.inner.set.store(true, Relaxed);
+		let waiters = std::mem::take(&mut *self.inner.waiters.lock().expect("flag lock poisoned"));
+		for waiter in waiters {
+			if let Some(waker) = waiter.upgrade() {
+				waker.wake();
+			}
+		}
 	}
 }
 
@@ -53,16 +75,27 @@ impl Future for Flag {
 	type Output = ();
 
 	fn poll(self: Pin<&mut Self>, cx: &mut Context<'_>) -> Poll<()> {
+		let this = self.get_mut();
+
 		// quick check to avoid registration if already done.
-		if self.0.set.load(Relaxed) {
+		if this.inner.set.load(Relaxed) {
 			return Poll::Ready(());
 		}
 
-		self.0.waker.register(cx.waker());
+		let inner = &this.inner;
+		this.waker
+			.get_or_insert_with(|| {
+				let waker = Arc::new(AtomicWaker::new());
+				let mut waiters = inner.waiters.lock().expect("flag lock poisoned");
+				waiters.retain(|w| w.strong_count() > 0);
+				waiters.push(Arc::downgrade(&waker));
+				waker
+			})
+			.register(cx.waker());
 
 		// Need to check condition **after** `register` to avoid a race
 		// condition that would result in lost notifications.
-		if self.0.set.load(Relaxed) {
+		if this.inner.set.load(Relaxed) {
 			Poll::Ready(())
 		} else {
 			Poll::Pending
